@@ -76,6 +76,13 @@ CHECKS = {
     text="For all inputs and prior dest contents: every non-exempt return is reached only after a zero store / zeroing write of length >= 1 into dest, the edge on which the element just stored into (or scanned in) dest compared equal to zero, or a terminating libc routine, with no later write of this call into dest. Thorough adds the no-slack configuration. That the terminator lies inside [0, dmax) is C01's obligation on the same store.",
     design_ref="DESIGN.md §3.3, §4 C03",
     note=TB + "; decided assuming C01; libc routines listed as terminating in sa/flags.py; 36 triaged known findings, most of them the same exits as the C04 findings (dest left as passed on early error exits)"),
+ "C20": dict(
+    engine="pathflags",
+    technique="path-sensitive abstract interpretation with an allocation typestate over every malloc/calloc/realloc site of the library: null-tested before any dereference, freed or handed over at every return; realloc split into success/failure edges; correlated flag tests followed by SSA identity of the condition",
+    category="other",
+    text="Covers every allocation site (18 in 10 functions) and every path from it, which is the statement 'for every position k at which the k-th allocation fails' without enumerating fault positions: a block that may be NULL must not be dereferenced or passed to a dereferencing routine, and a block that may be non-NULL must not be owned at a return. The clause 'dest cleared as for any other violation' on the failure exit is C04's.",
+    design_ref="DESIGN.md §3.3, §4 C20",
+    note=TB + "; allocator contract (NULL on failure, realloc keeps the old block on failure); a callee receiving a block is assumed to dereference it; 27 triaged known findings (12 unchecked allocations, leaks on wcsnorm ESNOSPC exits and the %ls failure path)"),
 }
 
 NOT_APPLICABLE = {
